@@ -859,65 +859,65 @@ func checkWorkFlow(p *load.Program, r *kit.Report, funcs []*ssa.Function, workF 
 			}
 			a, isAlloc := bigArg(v).(*ssa.Alloc)
 			why := ""
-		if !isAlloc {
-			why = "stored work is not a big.Int allocated in this function (" + describe(v) + ")"
-		} else {
-			sawPred, sawOwn, other := false, false, ""
-			for _, ref := range *a.Referrers() {
-				c, ok := ref.(*ssa.Call)
-				if !ok || len(c.Call.Args) == 0 || c.Call.Args[0] != ssa.Value(a) {
-					continue
-				}
-				m := strings.TrimPrefix(kit.CallID(c), bigInt+".")
-				if !bigMutating[m] {
-					continue
-				}
-				if m != "Add" && m != "Set" {
-					other = "work is modified with big.Int." + m
-				}
-				for _, op := range c.Call.Args[1:] {
-					if loadOfField(op, workF) {
-						sawPred = true
-					} else if ph, isPhi := kit.Strip(op).(*ssa.Phi); isPhi {
-						// the predecessor's work, or a fresh zero when there is no predecessor
-						loads, okAll := 0, true
-						for _, e := range ph.Edges {
-							switch {
-							case loadOfField(e, workF):
-								loads++
-							default:
-								if al, isAlloc := kit.Strip(e).(*ssa.Alloc); isAlloc {
-									for _, ref := range *al.Referrers() {
-										if c, isCall := ref.(*ssa.Call); isCall && len(c.Call.Args) > 0 && c.Call.Args[0] == ssa.Value(al) &&
-											bigMutating[strings.TrimPrefix(kit.CallID(c), bigInt+".")] {
-											okAll = false
+			if !isAlloc {
+				why = "stored work is not a big.Int allocated in this function (" + describe(v) + ")"
+			} else {
+				sawPred, sawOwn, other := false, false, ""
+				for _, ref := range *a.Referrers() {
+					c, ok := ref.(*ssa.Call)
+					if !ok || len(c.Call.Args) == 0 || c.Call.Args[0] != ssa.Value(a) {
+						continue
+					}
+					m := strings.TrimPrefix(kit.CallID(c), bigInt+".")
+					if !bigMutating[m] {
+						continue
+					}
+					if m != "Add" && m != "Set" {
+						other = "work is modified with big.Int." + m
+					}
+					for _, op := range c.Call.Args[1:] {
+						if loadOfField(op, workF) {
+							sawPred = true
+						} else if ph, isPhi := kit.Strip(op).(*ssa.Phi); isPhi {
+							// the predecessor's work, or a fresh zero when there is no predecessor
+							loads, okAll := 0, true
+							for _, e := range ph.Edges {
+								switch {
+								case loadOfField(e, workF):
+									loads++
+								default:
+									if al, isAlloc := kit.Strip(e).(*ssa.Alloc); isAlloc {
+										for _, ref := range *al.Referrers() {
+											if c, isCall := ref.(*ssa.Call); isCall && len(c.Call.Args) > 0 && c.Call.Args[0] == ssa.Value(al) &&
+												bigMutating[strings.TrimPrefix(kit.CallID(c), bigInt+".")] {
+												okAll = false
+											}
 										}
+									} else {
+										okAll = false
 									}
-								} else {
-									okAll = false
 								}
 							}
+							if okAll && loads > 0 {
+								sawPred = true
+							}
 						}
-						if okAll && loads > 0 {
-							sawPred = true
-						}
-					}
-					if cw := isCallTo(op, load.BitcoinPkg+".ConvertToWork"); cw != nil && m == "Add" {
-						if cd := isCallTo(cw.Call.Args[0], load.BitcoinPkg+".ConvertToDifficulty"); cd != nil && ownBits(cd.Call.Args[0]) {
-							sawOwn = true
+						if cw := isCallTo(op, load.BitcoinPkg+".ConvertToWork"); cw != nil && m == "Add" {
+							if cd := isCallTo(cw.Call.Args[0], load.BitcoinPkg+".ConvertToDifficulty"); cd != nil && ownBits(cd.Call.Args[0]) {
+								sawOwn = true
+							}
 						}
 					}
 				}
+				switch {
+				case other != "":
+					why = other
+				case !sawPred:
+					why = "the predecessor's AccumulatedWork does not flow into the new header's work"
+				case !sawOwn:
+					why = "ConvertToWork(ConvertToDifficulty(header.Bits)) is not added to the new header's work"
+				}
 			}
-			switch {
-			case other != "":
-				why = other
-			case !sawPred:
-				why = "the predecessor's AccumulatedWork does not flow into the new header's work"
-			case !sawOwn:
-				why = "ConvertToWork(ConvertToDifficulty(header.Bits)) is not added to the new header's work"
-			}
-		}
 			return why
 		}
 		v := stored[0]
